@@ -251,8 +251,12 @@ def check_record_consistency(ctx, rec, case, sigbase):
             for name, val, axis, prof, dl in (("BunchLength", rec.L[k][b], rec.z, rec.prof[k][b], dz),
                                               ("EnergySpread", rec.S[k][b], rec.E, rec.eprof[k][b], dE)):
                 var, qd = profile_variance(axis, prof, rec.prof[k][b], dl)
-                if var is None:
+                if var is None and val == 0:
                     continue
+                if var is None or not (var == var and abs(var) < 1e30 and val == val):
+                    ctx.violation("impl-oracle", "/%s/data of record %d, bunch %d: the recorded value or profile is not finite / has no charge" % (name, k, b),
+                                  case=case, observed=dict(recorded=val), sig=dict(sigbase, clause="finite", what=name))
+                    return False
                 # the energy profile is a rectangle-rule sum over the energy axis of Simpson-weighted columns while the charge is
                 # Simpson-weighted in both directions: allow the measured difference of the two quadratures of the same profile
                 # twice (once per direction) plus float accumulation
@@ -261,7 +265,7 @@ def check_record_consistency(ctx, rec, case, sigbase):
                 if not abs(val * val - var) <= tol:
                     ctx.violation("impl-oracle", "/%s/data of record %d, bunch %d is not the rms of the /%s profile of the same record "
                                   "normalised by that record's own charge" % (name, k, b, "BunchProfile" if name == "BunchLength" else "EnergyProfile"),
-                                  case=case, observed=dict(recorded=val, rms_of_recorded_profile=math.sqrt(var), population=rec.pop[k][b]),
+                                  case=case, observed=dict(recorded=val, rms_of_recorded_profile=math.sqrt(abs(var)), population=rec.pop[k][b]),
                                   expected=dict(tolerance_on_variance=tol / var), sig=dict(sigbase, clause="record-consistency", what=name))
                     return False
     ctx.extra.setdefault("record_consistency_worst", []).append(round(worst, 7))
